@@ -606,11 +606,13 @@ def aTxRow (seq : Nat) (l : String) (tx : Tx) : ATx :=
     destinationsArrays := Sql.aggElements (fun (v : Val) => (Sql.explodeAddress (Val.arrowText v (Val.text "destination")))) ps,
     md := kvsOf tx.metadata }
 
+/-- the `insert into transactions` of `insert_transaction`, with the revision 1 its trigger writes -/
+def aTxInserted (A : ADB) (l : String) (tx : Tx) : ADB :=
+  aTxInsHist { A with txs := A.txs ++ [aTxRow A.txSeq l tx], txSeq := A.txSeq + 1 } (aTxRow A.txSeq l tx)
+
 def aInsertTransaction (A : ADB) (l : String) (tx : Tx) (d : Val) (am : List (String × Meta)) : ADB :=
-  let row := aTxRow A.txSeq l tx
-  let A1 := aTxInsHist { A with txs := A.txs ++ [row], txSeq := A.txSeq + 1 } row
-  let A2 := tx.postings.foldl (fun A p => aInsertPosting A (.int row.seq) l d tx.timestamp p am) A1
-  { A2 with txMeta := A2.txMeta ++ [{ seq := A2.txMetaSeq, ledger := l, txSeq := row.seq, revision := .int 0, date := .ts tx.timestamp, md := kvsOf tx.metadata }],
+  let A2 := tx.postings.foldl (fun B p => aInsertPosting B (.int A.txSeq) l d tx.timestamp p am) (aTxInserted A l tx)
+  { A2 with txMeta := A2.txMeta ++ [{ seq := A2.txMetaSeq, ledger := l, txSeq := A.txSeq, revision := .int 0, date := .ts tx.timestamp, md := kvsOf tx.metadata }],
             txMetaSeq := A2.txMetaSeq + 1 }
 
 theorem insert_transactions_conc (A : ADB) (t : ATx) :
@@ -671,7 +673,7 @@ theorem insert_transaction_conc (A : ADB) (l : String) (tx : Tx) (d : Val) (am :
   obtain ⟨db', e'⟩ := s'
   simp only at k1 k2 k3 k4
   subst k1
-  simp [k2, k3, k4.1, ins2, aInsertTransaction, aTxRow]
+  simp [k2, k3, k4.1, ins2, aInsertTransaction, aTxInserted, aTxRow]
 
 -- ---------------------------------------------------------------- handle_log, and one INSERT into logs
 
